@@ -332,7 +332,46 @@ def conclude(pid, tier, seed, t0, R, spec, proof, runs, ins, outs, fails, workdi
     return 1
 
 def replay(pid, path, R):
-    """re-run the recorded lines against the current tree"""
+    """re-run exactly the recorded case (same scenario, arguments, seed and history index) against the current tree"""
     doc = json.load(open(path))
-    print(json.dumps({k: doc.get(k) for k in ('property', 'kind', 'run_header', 'oracle_failure', 'first_difference', 'broken_obligation')}, indent=1)[:3000])
+    spec = PROPS[pid]
+    print(json.dumps({k: doc.get(k) for k in ('property', 'kind', 'run_header', 'oracle_failure', 'first_difference', 'broken_obligation')}, indent=1)[:2500])
+    rr = doc.get('rerun')
+    if not rr:
+        print('this replay names a broken proof obligation / correspondence only; nothing to re-execute')
+        return 1
+    R.build_harness()
+    workdir = os.path.join(R.OUT, f'replay_{pid}_{os.getpid()}')
+    os.makedirs(workdir, exist_ok=True)
+    a = dict(rr['args'])
+    h = int(rr['h'])
+    if rr['scen'] in ('urgency', 'fixture'):
+        item = {'scen': rr['scen'], 'args': a, 'n': int(a.get('shards', 1)), 'shards': int(a.get('shards', 1))}
+        paths = R.run_plan(pid + 'r', [item], int(a.get('seed', 0)), workdir, rr.get('flags', ()))
+    else:
+        a['n'] = 1; a['first'] = h
+        p = os.path.join(workdir, 'replay.lines')
+        R.PLAN_OF[p] = {'scen': rr['scen'], 'args': a, 'flags': rr.get('flags', [])}
+        R.run_shard((rr['scen'], a, p, tuple(rr.get('flags', ()))))
+        paths = [p]
+    runs, ins, outs, fails = analyse(pid, spec, paths, R)
+    runs_h = [r for r in runs if r.h == h] or runs
+    known = R.load_known()
+    fails = [(r, f) for (r, f) in fails if r.h == h or rr['scen'] in ('urgency', 'fixture')]
+    real = [(r, f) for (r, f) in fails if not known_matches(pid, f, known)]
+    for r, f in fails:
+        k = known_matches(pid, f, known)
+        if k:
+            print(f"KNOWN-FINDING: property={pid} {k['what']}")
+    ins_h = [(run, r, t) for (run, r, t) in ins if run.h == h or rr['scen'] in ('urgency', 'fixture')]
+    print(f'[{pid}] replay of h={h}: runs={len(runs_h)} oracle-failures={len(real)} in-scope-differences={len(ins_h)}')
+    if real:
+        print('  oracle: ' + real[0][1]['sentence'] + ' :: ' + real[0][1]['detail'][:300])
+        print(f'VIOLATION property={pid} replay={path}')
+        return 1
+    if ins_h:
+        run, r, t = ins_h[0]
+        print(f"  difference [{','.join(t)}] impl={str(r.impl)[:160]} model={str(r.model)[:160]}")
+        print(f'VIOLATION property={pid} replay={path} no-failing-input-found')
+        return 1
     return 0
